@@ -19,7 +19,7 @@ func c17Cfg(tier string) c17.Config {
 		"advance",
 	}}
 	if tier == "thorough" {
-		c.Depth = 7
+		c.Depth = 8
 	}
 	return c
 }
